@@ -824,7 +824,7 @@ func Compare(refTree *Tree, compTrees <-chan Trees, tips, comparetreeidentical b
 				if inerr == nil {
 					if inerr = treeV.Tree.ReinitIndexes(); inerr == nil {
 						edges2 := treeV.Tree.Edges()
-						if inerr = refTree.CompareTipIndexes(treeV.Tree); err == nil {
+						if inerr = refTree.CompareTipIndexes(treeV.Tree); inerr == nil {
 							sametree = true
 							for _, e2 := range edges2 {
 								ok := true
@@ -940,7 +940,7 @@ func CompareWeighted(refTree *Tree, compTrees <-chan Trees, tips, comparetreeide
 						}
 
 						// The trees have the same tips, we can compare them
-						if inerr = refTree.CompareTipIndexes(treeV.Tree); err == nil {
+						if inerr = refTree.CompareTipIndexes(treeV.Tree); inerr == nil {
 							sametree = true
 
 							// Check compared edges against reference index
